@@ -341,6 +341,71 @@ def expunged_by_other(others, upto, cid):
     return False
 
 
+async def client_cancel(part, backend):
+    """the client itself calls a multi-message APPEND off (RFC 3502: a zero-length literal where the next message would start): the command ends in NO and
+    none of the messages it had already sent is in the mailbox - at every position, with synchronising and non-synchronising literals"""
+    from pymap.imap import IMAPServer
+    from .common import wire, backends
+    base = None
+    if backend == 'dict':
+        be, config = await backends.make_dict(users=[('u', 'p', ())], bad_command_limit=None)
+        login = be.login
+    else:
+        base = backends.scratch_dir('pymap-verif-c14-')
+        config, login = await backends.make_maildir(base, users=[('u', 'p', ())], bad_command_limit=None)
+    try:
+        srv = IMAPServer(login, config)
+        c = wire.Client(srv)
+        await c.start()
+        await c.send(b'a LOGIN u p\r\n')
+        await c.send(b'a APPEND INBOX {9+}\r\nA: b\r\n\r\nx\r\n')
+
+        async def status():
+            raw = await c.send(b's STATUS INBOX (MESSAGES UIDNEXT)\r\n')
+            mt = re.search(rb'MESSAGES (\d+) UIDNEXT (\d+)', raw)
+            return (int(mt.group(1)), int(mt.group(2))) if mt else raw[-80:]
+        for nbefore in (0, 1, 2, 3):
+            for plus in (False, True):
+                case = dict(scenario='client-cancel', backend=backend, messages_before_the_cancel=nbefore, literal_plus=plus)
+                before = await status()
+                msgs = [b'Subject: m%d\r\n\r\nbody %d\r\n' % (k, k) for k in range(nbefore)]
+                raw = b''
+                if plus:
+                    line = b'c APPEND INBOX' + b''.join(b' {%d+}\r\n' % len(m_) + m_ for m_ in msgs) + b' {0+}\r\n\r\n'
+                    raw = await c.send(line)
+                else:
+                    raw = await c.send(b'c APPEND INBOX {%d}\r\n' % (len(msgs[0]) if msgs else 0))
+                    for k, m_ in enumerate(msgs):
+                        nxt = len(msgs[k + 1]) if k + 1 < len(msgs) else 0
+                        if not raw.startswith(b'+'):
+                            break
+                        raw = await c.send(m_ + b' {%d}\r\n' % nxt)
+                    if raw.startswith(b'+'):
+                        raw = await c.send(b'\r\n')
+                after = await status()
+                part.case(key=f'client-cancel:{backend}:{nbefore}:{plus}', nontrivial=nbefore > 0, sample=case)
+                part.stat('client-cancel')
+                tagged = [l for l in raw.split(b'\r\n') if l.startswith(b'c ')]
+                if not tagged or not tagged[-1].startswith(b'c NO'):
+                    part.violation('monitor', f'{backend}: an APPEND the client called off after {nbefore} message(s) ({"{n+}" if plus else "{n}"} literals) was answered {raw[-80:]!r}, not NO', case,
+                                   signature='client-cancel-answer')
+                if after != before:
+                    part.violation('monitor', f'{backend}: an APPEND the client called off after {nbefore} message(s) changed the mailbox: MESSAGES/UIDNEXT {before} -> {after} (reply {raw[-60:]!r})', case,
+                                   signature='client-cancel-stored')
+        await c.eof()
+    finally:
+        if base:
+            backends.rmtree(base)
+
+
+def cancel_worker(job):
+    part = Part()
+    for backend in ('dict', 'maildir'):
+        with guarded(part, 'C14 client cancel', dict(scenario='client-cancel', backend=backend)):
+            asyncio.run(client_cancel(part, backend))
+    return part.result()
+
+
 def worker(job):
     seed, names, nrandom = job
     r = random.Random(seed)
@@ -380,6 +445,7 @@ def run(ctx):
     chunks = [names[k::nw] for k in range(nw)]
     ctx.rep.extra['fault_enumeration'] = 'every park point of every command is cut once by cancellation; storage calls 1-4 raise once each'
     ctx.pmap(worker, [(ctx.seed * 1000 + 140 + k, chunks[k % len(chunks)] if k < len(names) else [names[k % len(names)]], ctx.budget(6, 80)) for k in range(nw)])
+    ctx.pmap(cancel_worker, [(ctx.seed,)])
     # maildir: the fault is a process kill at every filesystem-operation boundary of MOVE / COPY histories (C15's child-process machinery);
     # the judge there includes conservation: a message of a MOVE in flight is served from the source or the destination after the restart
     from . import c15
